@@ -10,6 +10,7 @@ import json
 import os
 import random
 
+import e2e
 import vlib
 from vlib import log
 
@@ -105,7 +106,10 @@ def run(tier, replay):
                     V.known("KF_DropForgotten", desc)
                 else:
                     V.violation("a line was dropped, more than 100 lines later the next delivered line reports 100%", desc)
-        cov = {"states": states, "transitions": trans, "traces_validated_against_impl": len(cases),
+        # the same property where a user sees it: the real dtail following a file on a real dserver
+        follow_runs = e2e.stage_follow(wd, V, random.Random(vlib.seed() + 4), tier)
+        log("dtail over SSH following a growing file (CR endings, two-part lines, lines beyond MaxLineLength, bursts): %d run" % follow_runs)
+        cov = {"states": states, "transitions": trans, "traces_validated_against_impl": len(cases) + follow_runs, "e2e_follow_runs": follow_runs,
                "evaluations": delivered, "distinct_nontrivial": sum(1 for c in cases if c["cap"] < 100 or c["pre"] or c["bulk"]),
                "rule": "cases = distinct behaviours (open / write(chunk) / take) of Tail.tla from TLC -simulate for 5 combinations of pre-existing "
                        "content, queue capacity (1, 2, 100) and filter, executed with concrete bytes (multi-byte characters, writes split at "
